@@ -8,7 +8,7 @@ def main():
     mod = sys.argv[1]
     kw = dict(a.split("=", 1) for a in sys.argv[2:] if "=" in a and not a.startswith("--"))
     canaries = "--no-canary" not in sys.argv
-    r = verify_unit(mod, canaries=canaries, tag=kw.get("profile", ""), **kw)
+    r = verify_unit(mod, canaries=canaries, tag="-".join(str(v) for v in kw.values()), **kw)
     print("unit", r.name, "status", r.status, "verified_fns", r.verified_fns, "smt_ms", r.smt_ms, "wall %.1fs" % r.wall_s)
     if r.undecided_reason:
         print("UNDECIDED:", r.undecided_reason)
